@@ -155,11 +155,18 @@ class Extractor(Translator):
 
     # ---------------------------------------------------------------- std models
     def model_record_fields(self, canon):
+        ext = self.opts.get("ext_records", {})
+        if canon in ext:
+            return [(fn, parse_type(ft)) for (fn, ft) in ext[canon]]
         return self.stdlib.record(canon)
 
     def model_ctor(self, ctor, cinfo, ptr, args, ce):
         if not self.is_external(ctor):
             return None
+        ety = self.ety(ce)
+        h = self.opts.get("ext_ctor", {}).get(ety.name if ety.kind == "rec" else None)
+        if h is not None:
+            return h(self, ptr, args)
         m = self.stdlib.ctor(ctor, cinfo, ptr, args, ce)
         if m is None:
             if "trivial" in cinfo:
@@ -169,6 +176,8 @@ class Extractor(Translator):
 
     def model_dtor(self, did, ty):
         if self.is_external(did):
+            if ty.kind == "rec" and ty.name in self.opts.get("ext_dtor", {}):
+                return self.opts["ext_dtor"][ty.name]
             m = self.stdlib.dtor(did, ty)
             if m is None:
                 info = self.ast.finfo(did)
